@@ -10,6 +10,8 @@ ENGINES = [
      "kind_free_text": "the current source of _type_casting/_core/serde is recompiled into shadow modules whose numpy/mmap/open/os globals are shims over z3 bit-vector cells and z3 arrays; the real tensor code then runs on fully symbolic payloads, offsets and file contents"},
     {"name": "hist (on zsym)", "path": "engine/hist.py, engine/irlib.py", "serves_properties": ["C01", "C06", "C11", "C12", "C13", "C19", "C20"],
      "kind_free_text": "bounded edit histories over the real IR classes with symbolic operand selectors and payload ints; z3 decides path feasibility, every feasible path is explored and its witness re-executed natively (guard against proxy intolerance)"},
+    {"name": "euf (translation validation)", "path": "engine/euf.py, engine/models.py", "serves_properties": ["C05", "C14", "C18"],
+     "kind_free_text": "IR models are encoded as z3 terms over uninterpreted functions (content-addressed constants, schema-default-completed attributes, interpreted Identity/functions, alpha-canonical control-flow bodies); the artefact produced by the real transformation is proved output-equivalent to its source for all inputs"},
     {"name": "vthreads", "path": "engine/vthreads.py, engine/fsmodel.py", "serves_properties": ["C08", "C09"],
      "kind_free_text": "the real external_data module is recompiled with threading/concurrent.futures replaced by greenlet-based virtual threads under a deterministic scheduler whose choices are symbolic, and os/shutil/tempfile/open/mmap replaced by an in-memory file system whose every effect is a numbered fault/crash point"},
     {"name": "zsym", "path": "engine/zsym.py", "serves_properties": ["C04", "C07", "C10", "C15"],
@@ -17,6 +19,16 @@ ENGINES = [
 ]
 NOT_APPLICABLE = {}
 CHECKS = {
+    "C05": dict(
+        engine="euf (translation validation)", level="translation_validation", design_ref="DESIGN.md section 4 / C05",
+        technique="translation validation with uninterpreted functions (z3, EUF): output terms of the model before and after the real pass sequence - as object graph and after a serialize/deserialize round trip - proved equal for ALL inputs and ALL operator semantics; sat answers replayed with onnxruntime / the ONNX checker",
+        text=("Every built-in pass (20 configurations), every ordered pair of the rewriting passes and recommended triples (thorough: all ordered triples of 9 rewriting passes) run for real on a family of 17 checker-valid models built from real operators "
+              "(duplicate subexpressions differing in one attribute / optional input slot / output count, Identity chains touching inputs, initializers and outputs across scopes, duplicated initializers differing in dtype/shape/bytes, every Constant form, "
+              "If/Loop bodies capturing outer values two scopes up, model-local functions with attribute parameters, defaults and nesting, outputs aliasing inputs, unsorted order, name clashes across scopes). After EVERY pass of a sequence the outputs are "
+              "encoded as EUF terms and z3 proves position-wise equality with the original for all inputs and all interpretations of the operators; number/order of outputs and non-initializer inputs are compared; a pass that raises must leave an equivalent model. "
+              "The ONNX checker is run concretely on every final result (side-oracle)."),
+        note="Trusted: z3; the EUF encoder (validated at start-up on hand-made equal/different pairs; attribute defaults from onnx.defs); onnxruntime / onnx.checker only to confirm counterexamples. Operator semantics are abstracted (a stronger claim); models outside the family are outside the bound.",
+    ),
     "C08": dict(
         engine="fsmodel + hist (on zsym)", level="fault_enumeration", design_ref="DESIGN.md section 4 / C08",
         technique="symbolic execution (zsym/z3) of the real save path on an in-memory file system whose every effect is a fault/crash point: failing effect, raising tensor/callback, threshold and shard limit are symbolic integers; crash oracle at every effect boundary",
